@@ -296,6 +296,7 @@ def aux_task(task):
         for f in forests:
             def once(rng):
                 clear_proposal_dist_caches()
+                kernelx.cold_array_caches()
                 tree, _ = gen.build_tree(f, data)
                 move, _k = kernelx.make_move(cfg, rng, td)
                 try:
